@@ -2,15 +2,23 @@ package main
 
 import (
 	"context"
+	"crypto/ecdsa"
+	"crypto/elliptic"
+	"crypto/rand"
+	"crypto/tls"
 	"crypto/x509"
+	"crypto/x509/pkix"
 	"encoding/pem"
+	"math/big"
 	"net"
+	"os"
 	"strconv"
 	"sync"
 	"time"
 
 	"google.golang.org/grpc"
 	"google.golang.org/grpc/codes"
+	"google.golang.org/grpc/credentials"
 	"google.golang.org/grpc/status"
 	pb "istio.io/api/security/v1alpha1"
 
@@ -29,6 +37,7 @@ import (
 //	    leafonly  chain [leaf]                      (must be rejected: there is no root in it)
 //	    empty     chain []
 //	    error     gRPC status InvalidArgument       (not retried by the CA retry interceptor)
+//	    retry     gRPC status Unavailable once, then a normal answer to the re-sent request (CARetryInterceptor)
 //	bundle / fire as in stream `cache`.
 //
 // The model sees normal/three as a successful CA response whose root is the last chain element and
@@ -54,6 +63,13 @@ func (c *citServer) CreateCertificate(_ context.Context, in *pb.IstioCertificate
 	kind := c.kind
 	c.mu.Unlock()
 	ok := caOutcome{kind: "ok", ttl: time.Hour, signer: 'A', bundle: "-"}
+	if kind == "retry" {
+		// a retried gRPC code on the first attempt: the CA retry interceptor re-sends, the agent sees one good answer
+		c.mu.Lock()
+		c.kind = "normal"
+		c.mu.Unlock()
+		return nil, status.Error(codes.Unavailable, "scripted transient CA error")
+	}
 	switch kind {
 	case "error", "empty":
 		c.ca.mu.Lock()
@@ -84,19 +100,77 @@ func (c *citServer) CreateCertificate(_ context.Context, in *pb.IstioCertificate
 	return &pb.IstioCertificateResponse{CertChain: chain}, nil
 }
 
-func newCitadelSUT(ratio, jitter float64) *sut {
+const citadelSAN = "istiod.verif.svc"
+
+// tlsMaterial: a TLS root and a server certificate for citadelSAN signed by it (the transport of the TLS variant).
+func tlsMaterial() (rootPEM []byte, server tls.Certificate) {
+	rk, err := ecdsa.GenerateKey(elliptic.P256(), rand.Reader)
+	must(err)
+	rt := &x509.Certificate{
+		SerialNumber: big.NewInt(9000), Subject: pkix.Name{CommonName: "verif-tls-root"},
+		NotBefore: time.Now().Add(-time.Hour), NotAfter: time.Now().Add(24 * time.Hour),
+		IsCA: true, BasicConstraintsValid: true, KeyUsage: x509.KeyUsageCertSign | x509.KeyUsageDigitalSignature,
+	}
+	rder, err := x509.CreateCertificate(rand.Reader, rt, rt, &rk.PublicKey, rk)
+	must(err)
+	rc, err := x509.ParseCertificate(rder)
+	must(err)
+	sk, err := ecdsa.GenerateKey(elliptic.P256(), rand.Reader)
+	must(err)
+	st := &x509.Certificate{
+		SerialNumber: big.NewInt(9001), Subject: pkix.Name{CommonName: citadelSAN}, DNSNames: []string{citadelSAN},
+		NotBefore: time.Now().Add(-time.Hour), NotAfter: time.Now().Add(24 * time.Hour),
+		KeyUsage: x509.KeyUsageDigitalSignature, ExtKeyUsage: []x509.ExtKeyUsage{x509.ExtKeyUsageServerAuth},
+	}
+	sder, err := x509.CreateCertificate(rand.Reader, st, rc, &sk.PublicKey, rk)
+	must(err)
+	return pem.EncodeToMemory(&pem.Block{Type: "CERTIFICATE", Bytes: rder}), tls.Certificate{Certificate: [][]byte{sder}, PrivateKey: sk}
+}
+
+// newCitadelSUT: with useTLS the client is given TLSOptions{RootCert: <file>} (as istio-agent does) and the in-process
+// CA serves TLS: buildConnection then reads the root file on every (re)connect.
+func newCitadelSUT(ratio, jitter float64, useTLS bool) *sut {
 	initRoots()
 	ca := &fakeCA{}
 	lis, err := net.Listen("tcp", "127.0.0.1:0")
 	must(err)
-	cs := &citServer{kind: "normal", ca: ca, srv: grpc.NewServer(), addr: lis.Addr().String()}
+	var sopts []grpc.ServerOption
+	var tlsOpts *citadel.TLSOptions
+	tmp := ""
+	if useTLS {
+		rootPEM, cert := tlsMaterial()
+		tmp, err = os.MkdirTemp("", "c18tls")
+		must(err)
+		must(os.WriteFile(tmp+"/ca-root.pem", rootPEM, 0o644))
+		sopts = append(sopts, grpc.Creds(credentials.NewTLS(&tls.Config{Certificates: []tls.Certificate{cert}, MinVersion: tls.VersionTLS12})))
+		tlsOpts = &citadel.TLSOptions{RootCert: tmp + "/ca-root.pem"}
+	}
+	cs := &citServer{kind: "normal", ca: ca, srv: grpc.NewServer(sopts...), addr: lis.Addr().String()}
 	pb.RegisterIstioCertificateServiceServer(cs.srv, cs)
 	go func() { _ = cs.srv.Serve(lis) }()
-	cli, err := citadel.NewCitadelClient(&security.Options{CAEndpoint: cs.addr, ClusterID: "Kubernetes"}, nil)
+	cli, err := citadel.NewCitadelClient(&security.Options{CAEndpoint: cs.addr, CAEndpointSAN: citadelSAN, ClusterID: "Kubernetes"}, tlsOpts)
 	must(err)
 	s := newSUTWith(ratio, jitter, ca, cli)
 	s.cit = cs
+	s.tmpDir = tmp
 	return s
+}
+
+// rootFile: `rootfile hide|restore` (TLS variant) - the CA root file the client dials with becomes unreadable /
+// readable again (a volume being republished, a rotation in progress).  Nothing is observable by itself.
+func (s *sut) rootFile(t []string) string {
+	if s.cit == nil || s.tmpDir == "" || len(t) != 2 {
+		return "bad-op"
+	}
+	switch t[1] {
+	case "hide":
+		_ = os.Rename(s.tmpDir+"/ca-root.pem", s.tmpDir+"/ca-root.pem.away")
+	case "restore":
+		_ = os.Rename(s.tmpDir+"/ca-root.pem.away", s.tmpDir+"/ca-root.pem")
+	default:
+		return "bad-op"
+	}
+	return "ok"
 }
 
 // cgenAsGen configures the in-process CA for the next call and returns the equivalent `gen` tokens
@@ -106,7 +180,7 @@ func (s *sut) cgenAsGen(t []string) ([]string, bool) {
 		return nil, false
 	}
 	switch t[2] {
-	case "normal", "three":
+	case "normal", "three", "retry":
 		s.cit.setKind(t[2])
 		return []string{"gen", t[1], "ok", "3600", "A", "-"}, true
 	case "leafonly", "empty", "error":
@@ -120,17 +194,36 @@ func genCitadel(seed uint64, n int, path string) {
 	out := wire.Create(path)
 	defer out.Close()
 	root := wire.NewRng(seed*0x9e3779b9 + 1818181818)
-	kinds := []string{"normal", "normal", "normal", "three", "leafonly", "leafonly", "empty", "error"}
+	kinds := []string{"normal", "normal", "normal", "three", "leafonly", "leafonly", "empty", "error", "normal", "normal", "three", "leafonly", "empty", "error", "normal", "retry"}
 	for i := 0; i < n; i++ {
 		r := root.Fork()
 		// ratio / jitter as in the cache stream (the delay bucket is printed where it is deterministic)
 		rn, rd := ratTokens(wire.Pick(r, cacheRatios))
 		jn, jd := ratTokens(wire.Pick(r, cacheJitters))
-		out.Line("case", strconv.Itoa(i), "citadel", rn, rd, jn, jd)
+		useTLS := r.Chance(1, 3)
+		if useTLS {
+			out.Line("case", strconv.Itoa(i), "citadel", rn, rd, jn, jd, "tls")
+		} else {
+			out.Line("case", strconv.Itoa(i), "citadel", rn, rd, jn, jd)
+		}
 		entries := 0
 		cached := false
 		nops := 2 + r.Intn(10)
 		for k := 0; k < nops; k++ {
+			if useTLS && r.Chance(1, 5) {
+				// the root file is unreadable exactly while one request fails and the client reconnects; afterwards
+				// everything is healthy again: the failure must not be sticky
+				out.Line("rootfile", "hide")
+				res := wire.Pick(r, []string{"w", "r"})
+				out.Line("cgen", res, "error")
+				out.Line("rootfile", "restore")
+				out.Line("cgen", wire.Pick(r, []string{"w", "r"}), "normal")
+				if !cached {
+					cached = true
+					entries++
+				}
+				continue
+			}
 			switch x := r.Intn(10); {
 			case x < 7:
 				res := "w"
@@ -139,7 +232,7 @@ func genCitadel(seed uint64, n int, path string) {
 				}
 				kind := wire.Pick(r, kinds)
 				out.Line("cgen", res, kind)
-				if !cached && (kind == "normal" || kind == "three") {
+				if !cached && (kind == "normal" || kind == "three" || kind == "retry") {
 					cached = true
 					entries++
 				}
